@@ -73,7 +73,11 @@ Ctx(r) ==
                 dru |-> [t \in 1..n |-> Flat([u \in 1..t |-> r.steps[u].o.dr])],
                 cru |-> [t \in 1..n |-> Flat([u \in 1..t |-> r.steps[u].o.cr])],
                 lku |-> [t \in 1..n |-> Flat([u \in 1..t |-> E(r, u).lk])],
-                lsy |-> [t \in 1..n |-> \E u \in 1..t : E(r, u).lossy]])
+                lsy |-> [t \in 1..n |-> \E u \in 1..t : E(r, u).lossy],
+                \* the model's leak sets are usable: every leak-route step so far started from a state that agreed with the model
+                lkok |-> [t \in 1..n |-> \A u \in 2..t :
+                            (E(r, u).lk # <<>> \/ r.steps[u].op \in {"leak", "forget"} \/ r.steps[u].s = "forget")
+                                => \A w \in 1..(u - 1) : se[w]]])
 
 OutEq(r, t) ==
     LET o == O(r, t)  e == E(r, t) IN
@@ -84,8 +88,8 @@ RetEq(r, t) ==
     LET o == O(r, t)  e == E(r, t) IN
     /\ IF Z(r) THEN Len(o.ret) = Len(e.ret) ELSE o.ret = e.ret
     /\ e.num # <<>> => o.num = e.num
-    \* every clone was made from the element the reference clones (zero sized elements: the number of clones)
-    /\ IF Z(r) THEN TRUE ELSE Range(o.cl) = Range(e.cl)
+\* every clone was made from the element the reference clones (zero sized elements have no identity)
+CloneEq(r, t) == Z(r) \/ Range(O(r, t).cl) = Range(E(r, t).cl)
 
 -----------------------------------------------------------------------------
 (* C08: behaves like the (std-validated) reference; capacity promises *)
@@ -134,6 +138,7 @@ ValueClauses(r, t) ==
     ELSE
     (IF OutEq(r, t) THEN {} ELSE {<<t, "outcome", 0>>})
     \cup (IF RetEq(r, t) THEN {} ELSE {<<t, "returned-values", 0>>})
+    \cup (IF CloneEq(r, t) THEN {} ELSE {<<t, "clone-sources", 0>>})
     \cup {<<t, "contents", i>> : i \in {i \in Slots(r) : ~ContEq(r, o.cs[i], e.cs[i])}}
     \cup (IF HeldEq(r, t) THEN {} ELSE {<<t, "caller-values", 0>>})
 
@@ -150,30 +155,33 @@ OwnedCount(r, t)  == SumSeq([i \in Slots(r) |-> O(r, t).cs[i][3]]) + Len(O(r, t)
 \* after the model and the code went different ways the model's leak set is no longer meaningful
 Complete(r) == Op(r, N(r)) = "drop_held" /\ ~r.unsup /\ ~r.stopped
 
+\* "Nothing is lost" is stated on the OBSERVATIONS: every id the harness saw being created is owned by a container or
+\* the caller, was dropped, or went through a leak route (the only thing taken from the model, see lkok).  It does not
+\* depend on the code agreeing with the model after an injected panic.
 OwnClauses(r, cx, t) ==
     LET o == O(r, t) IN
     (IF o.tomb THEN {<<t, "dead-element-seen", 0>>} ELSE {})
     \cup (IF Z(r)
           THEN (IF o.zd > o.zc THEN {<<t, "more-drops-than-values", 0>>} ELSE {})
-               \* conservation for counted elements: nothing lost, nothing dropped early (only while in sync with the model)
-               \cup (IF cx.sy[t] /\ ~cx.lsy[t] /\ o.zc - o.zd - Len(cx.lku[t]) # OwnedCount(r, t)
+               \cup (IF cx.lkok[t] /\ ~cx.lsy[t] /\ o.zc - o.zd - Len(cx.lku[t]) # OwnedCount(r, t)
                      THEN {<<t, "count-not-conserved", 0>>} ELSE {})
           ELSE {<<t, "dropped-twice", x>> : x \in {x \in Range(o.dr) : Count(cx.dru[t], x) > 1}}
                \cup (IF NoDup(Owned(r, t)) THEN {} ELSE {<<t, "two-owners", 0>>})
                \cup {<<t, "owner-holds-dropped-value", x>> : x \in Range(Owned(r, t)) \cap Range(cx.dru[t])}
-               \* nothing is lost: every created id is owned, dropped, or went through a leak route of the model
-               \cup (IF cx.sy[t] /\ ~cx.lsy[t]
+               \cup (IF cx.lkok[t] /\ ~cx.lsy[t]
                      THEN {<<t, "value-lost", x>> : x \in Range(cx.cru[t]) \
                                (Range(Owned(r, t)) \cup Range(cx.dru[t]) \cup Range(cx.lku[t]))}
                      ELSE {}))
+\* End of life: when the behaviour ran to its end every created id was dropped exactly once, unless it took a leak route
+\* or is still owned by a container the behaviour did not drop (possible only after the code left the model's path).
 EndClauses(r, cx) ==
     IF ~Complete(r) THEN {}
     ELSE LET t == N(r)  o == O(r, t) IN
-         IF Z(r)
-         THEN (IF ~cx.lsy[t] /\ cx.sy[t] /\ o.zd # o.zc - Len(cx.lku[t]) THEN {<<t, "not-exactly-once-at-end", 0>>} ELSE {})
-         ELSE IF cx.lsy[t] THEN {}      \* a Drop implementation panicked: values may be lost, never dropped twice
+         IF cx.lsy[t] \/ ~cx.lkok[t] THEN {}   \* a Drop implementation panicked: values may be lost, never dropped twice
+         ELSE IF Z(r)
+         THEN (IF o.zd # o.zc - Len(cx.lku[t]) - OwnedCount(r, t) THEN {<<t, "not-exactly-once-at-end", 0>>} ELSE {})
          ELSE {<<t, "not-exactly-once-at-end", x>> :
-                    x \in {x \in Range(cx.cru[t]) \ Range(cx.lku[t]) : Count(cx.dru[t], x) # 1}}
+                    x \in {x \in Range(cx.cru[t]) \ (Range(cx.lku[t]) \cup Range(Owned(r, t))) : Count(cx.dru[t], x) # 1}}
               \cup {<<t, "leaked-value-dropped", x>> : x \in Range(cx.lku[t]) \cap Range(cx.dru[t])}
 Fail06(r, cx) ==
     IF r.crash THEN {<<N(r), "crash", 0>>}
